@@ -12,11 +12,16 @@ HISTORY = {
     'C17': 'first trial: MISSED (only `maskGo`/`maskAsm` were exercised, the change is in the `mask` dispatcher) → `VerifMask` export, dispatcher cases with empty pieces, zero-length reads in wire-in scripts',
     'C18': 'first trial: MISSED → netconn suite sets deadlines (past / near future) from another goroutine while the call is blocked',
     'C20': 'first trial: reported without a failing input (sched replay disagreed) → life scenarios with a Close whose frame cannot be marshalled, goroutine snapshot taken when Close returns (before the harness cleans up)',
+    'R2-C05': 'second round. The change (partly received payload returned still masked when a Read fails mid-frame) is a C04 matter — the unmasking repair 79af380 reverted — and is caught by C04; C05 (write-side concurrency) rightly does not react',
+    'R2-C09': 'second round, first trial: MISSED → life scenarios `closeread-twice-*` (the context of a second CloseRead call must be cancelled, too)',
+    'R2-C10': 'second round, first trial: MISSED → scenario `emptyfin-read-then-cancel` (message ending in an empty final continuation frame) and a general trace check: after every call that returned nil the last arm event of each side must be the re-arm with Background',
+    'R2-C18': 'second round, first trial: MISSED → netconn cases `idle-midmessage-*` (deadline passes while a message is only partly read)',
+    'R2-C20': 'second round, first trial: MISSED → the CloseRead goroutine\'s exit hook now fires after its context was cancelled (repo 2c5f3bb) and the scenario `closeread-derived-contexts-closenow` makes that cancellation slow; goroutine snapshot at the moment CloseNow returns',
     'C14': 'also makes C01 report a correspondence break without a failing input (shared options change under the pair suite)',
 }
 print('| seeded change (property it breaks) | what it does | what it needs to show | confirmed | checks run on it → result (current machinery) | history |')
 print('|---|---|---|---|---|---|')
-for d in sorted(glob.glob(os.path.join(ROOT, 'seeded', 'C*'))):
+for d in sorted(glob.glob(os.path.join(ROOT, 'seeded', 'C*'))) + sorted(glob.glob(os.path.join(ROOT, 'seeded', 'R2-C*'))):
     sid = os.path.basename(d)
     try:
         meta = json.load(open(os.path.join(d, 'meta.json')))
@@ -39,5 +44,5 @@ for d in sorted(glob.glob(os.path.join(ROOT, 'seeded', 'C*'))):
             checks.append('%s → %s' % (m.group(1), res))
     def cell(x):
         return str(x).replace('|', '\\|').replace('\n', ' ')
-    print('| `seeded/%s` (%s) | %s | %s | %s | %s | %s |' % (sid, meta.get('property', sid[:3]), cell(meta.get('summary', ''))[:400], cell(meta.get('needs', ''))[:400],
+    print('| `seeded/%s` (%s) | %s | %s | %s | %s | %s |' % (sid, meta.get('property', sid[-3:]), cell(meta.get('summary', ''))[:400], cell(meta.get('needs', ''))[:400],
                                                       'suite passes, demo fails with / passes without' if ok else 'see confirm.txt', '; '.join(checks), HISTORY.get(sid, 'caught at the first trial')))
